@@ -531,3 +531,98 @@ Theorem C04_pypi_end_to_end :
 Proof. exact NativePypi.C04_pypi_end_to_end. Qed.
 Print Assumptions C04_pypi_end_to_end.
 
+(* ====== ties to the source: BEGIN (written by bin/mkties) ====== *)
+(* The Go functions named here are translated into Gallina from /repo's source on every run
+   (tools/gen/code.go -> Gen/Code/<Eco>.v); Tie/<Eco>.v, Tie/<Eco>Range.v prove each translation equal to the
+   model the theorems above speak about.  If the code changes so that a tie no longer holds,
+   this file no longer checks. *)
+From Verif.Tie Require Alpine AlpineRange Cargo CargoRange Debian DebianRange Gem GemRange Semver Golang GolangRange MavenRange Npm Nuget NugetRange Pypi PypiRange Rpm RpmRange.
+Definition C04_tie_alpine_compareInt := Verif.Tie.Alpine.tie_alpine_compareInt.
+Print Assumptions C04_tie_alpine_compareInt.
+Definition C04_tie_alpine_compareLetters := Verif.Tie.Alpine.tie_alpine_compareLetters.
+Print Assumptions C04_tie_alpine_compareLetters.
+Definition C04_tie_alpine_VersionRange_String := Verif.Tie.AlpineRange.tie_alpine_VersionRange_String.
+Print Assumptions C04_tie_alpine_VersionRange_String.
+Definition C04_tie_alpine_VersionRange_Contains := Verif.Tie.AlpineRange.tie_alpine_VersionRange_Contains.
+Print Assumptions C04_tie_alpine_VersionRange_Contains.
+Definition C04_tie_cargo_compareInt := Verif.Tie.Cargo.tie_cargo_compareInt.
+Print Assumptions C04_tie_cargo_compareInt.
+Definition C04_tie_cargo_compare := Verif.Tie.Cargo.tie_cargo_compare.
+Print Assumptions C04_tie_cargo_compare.
+Definition C04_tie_cargo_caret := Verif.Tie.CargoRange.tie_cargo_caret.
+Print Assumptions C04_tie_cargo_caret.
+Definition C04_tie_cargo_tilde := Verif.Tie.CargoRange.tie_cargo_tilde.
+Print Assumptions C04_tie_cargo_tilde.
+Definition C04_tie_cargo_satisfiesConstraint := Verif.Tie.CargoRange.tie_cargo_satisfiesConstraint.
+Print Assumptions C04_tie_cargo_satisfiesConstraint.
+Definition C04_tie_debian_compare := Verif.Tie.Debian.tie_debian_compare.
+Print Assumptions C04_tie_debian_compare.
+Definition C04_tie_debian_satisfiesConstraint := Verif.Tie.DebianRange.tie_debian_satisfiesConstraint.
+Print Assumptions C04_tie_debian_satisfiesConstraint.
+Definition C04_tie_debian_satisfiesConstraint_model := Verif.Tie.DebianRange.tie_debian_satisfiesConstraint_model.
+Print Assumptions C04_tie_debian_satisfiesConstraint_model.
+Definition C04_tie_debian_contains := Verif.Tie.DebianRange.tie_debian_contains.
+Print Assumptions C04_tie_debian_contains.
+Definition C04_tie_gem_compareInt := Verif.Tie.Gem.tie_gem_compareInt.
+Print Assumptions C04_tie_gem_compareInt.
+Definition C04_tie_gem_compareSegments := Verif.Tie.Gem.tie_gem_compareSegments.
+Print Assumptions C04_tie_gem_compareSegments.
+Definition C04_tie_gem_VersionRange_String := Verif.Tie.GemRange.tie_gem_VersionRange_String.
+Print Assumptions C04_tie_gem_VersionRange_String.
+Definition C04_tie_gem_VersionRange_Contains := Verif.Tie.GemRange.tie_gem_VersionRange_Contains.
+Print Assumptions C04_tie_gem_VersionRange_Contains.
+Definition C04_tie_semver_compareInt := Verif.Tie.Semver.tie_semver_compareInt.
+Print Assumptions C04_tie_semver_compareInt.
+Definition C04_tie_semver_compare := Verif.Tie.Semver.tie_semver_compare.
+Print Assumptions C04_tie_semver_compare.
+Definition C04_tie_golang_compareInt := Verif.Tie.Golang.tie_golang_compareInt.
+Print Assumptions C04_tie_golang_compareInt.
+Definition C04_tie_golang_Version_Compare := Verif.Tie.Golang.tie_golang_Version_Compare.
+Print Assumptions C04_tie_golang_Version_Compare.
+Definition C04_tie_golang_VersionRange_String := Verif.Tie.GolangRange.tie_golang_VersionRange_String.
+Print Assumptions C04_tie_golang_VersionRange_String.
+Definition C04_tie_golang_VersionRange_Contains := Verif.Tie.GolangRange.tie_golang_VersionRange_Contains.
+Print Assumptions C04_tie_golang_VersionRange_Contains.
+Definition C04_tie_maven_satisfiesConstraint := Verif.Tie.MavenRange.tie_maven_satisfiesConstraint.
+Print Assumptions C04_tie_maven_satisfiesConstraint.
+Definition C04_tie_maven_contains := Verif.Tie.MavenRange.tie_maven_contains.
+Print Assumptions C04_tie_maven_contains.
+Definition C04_tie_npm_compareInt := Verif.Tie.Npm.tie_npm_compareInt.
+Print Assumptions C04_tie_npm_compareInt.
+Definition C04_tie_npm_compare := Verif.Tie.Npm.tie_npm_compare.
+Print Assumptions C04_tie_npm_compare.
+Definition C04_tie_nuget_compareInt := Verif.Tie.Nuget.tie_nuget_compareInt.
+Print Assumptions C04_tie_nuget_compareInt.
+Definition C04_tie_nuget_compare := Verif.Tie.Nuget.tie_nuget_compare.
+Print Assumptions C04_tie_nuget_compare.
+Definition C04_tie_nuget_matches := Verif.Tie.NugetRange.tie_nuget_matches.
+Print Assumptions C04_tie_nuget_matches.
+Definition C04_tie_nuget_matches_model := Verif.Tie.NugetRange.tie_nuget_matches_model.
+Print Assumptions C04_tie_nuget_matches_model.
+Definition C04_tie_nuget_contains := Verif.Tie.NugetRange.tie_nuget_contains.
+Print Assumptions C04_tie_nuget_contains.
+Definition C04_tie_pypi_compareInt := Verif.Tie.Pypi.tie_pypi_compareInt.
+Print Assumptions C04_tie_pypi_compareInt.
+Definition C04_tie_pypi_normalizePrereleaseType := Verif.Tie.Pypi.tie_pypi_normalizePrereleaseType.
+Print Assumptions C04_tie_pypi_normalizePrereleaseType.
+Definition C04_tie_pypi_comparePrereleases := Verif.Tie.Pypi.tie_pypi_comparePrereleases.
+Print Assumptions C04_tie_pypi_comparePrereleases.
+Definition C04_tie_pypi_comparePostReleases := Verif.Tie.Pypi.tie_pypi_comparePostReleases.
+Print Assumptions C04_tie_pypi_comparePostReleases.
+Definition C04_tie_pypi_compareDevReleases := Verif.Tie.Pypi.tie_pypi_compareDevReleases.
+Print Assumptions C04_tie_pypi_compareDevReleases.
+Definition C04_tie_pypi_Version_Compare := Verif.Tie.Pypi.tie_pypi_Version_Compare.
+Print Assumptions C04_tie_pypi_Version_Compare.
+Definition C04_tie_pypi_VersionRange_String := Verif.Tie.PypiRange.tie_pypi_VersionRange_String.
+Print Assumptions C04_tie_pypi_VersionRange_String.
+Definition C04_tie_pypi_VersionRange_Contains := Verif.Tie.PypiRange.tie_pypi_VersionRange_Contains.
+Print Assumptions C04_tie_pypi_VersionRange_Contains.
+Definition C04_tie_rpm_compare := Verif.Tie.Rpm.tie_rpm_compare.
+Print Assumptions C04_tie_rpm_compare.
+Definition C04_tie_rpm_satisfiesRPMConstraint := Verif.Tie.RpmRange.tie_rpm_satisfiesRPMConstraint.
+Print Assumptions C04_tie_rpm_satisfiesRPMConstraint.
+Definition C04_tie_rpm_satisfiesRPMConstraint_model := Verif.Tie.RpmRange.tie_rpm_satisfiesRPMConstraint_model.
+Print Assumptions C04_tie_rpm_satisfiesRPMConstraint_model.
+Definition C04_tie_rpm_contains := Verif.Tie.RpmRange.tie_rpm_contains.
+Print Assumptions C04_tie_rpm_contains.
+(* ====== ties to the source: END ====== *)
